@@ -1,3 +1,7 @@
 import RProofs.BSet
 import RProofs.BSetQuery
 import RProofs.Facts.Constants
+import RProofs.Facts.Skeleton
+import RProofs.Par
+import RProofs.Properties.C14
+import RProofs.Properties.C09
